@@ -715,125 +715,150 @@ impl Authentication for AuthenticationBuiltin {
         // We are the initiator, and expect a reply.
         // Result is that we produce a MassageToken (i.e. send the final message)
         // and the handshake results (shared secret)
-        let reply =
-          BuiltinHandshakeMessageToken::try_from(handshake_message_in)?.extract_reply()?;
 
-        // "Verifies Cert2 with the configured Identity CA"
-        // So Cert2 is now `request.c_id`
-        let cert2 = Certificate::from_pem(reply.c_id.as_ref())?;
+        // First validate the reply without consuming the state. If the reply is
+        // rejected, the state is put back, so that a bad message does not prevent
+        // the genuine reply from being processed afterwards.
+        let validated = (|| {
+          let reply =
+            BuiltinHandshakeMessageToken::try_from(handshake_message_in)?.extract_reply()?;
 
-        // Verify that 2's identity cert checks out against CA.
-        cert2.verify_signed_by_certificate(&local_info.identity_ca)?;
+          // "Verifies Cert2 with the configured Identity CA"
+          // So Cert2 is now `request.c_id`
+          let cert2 = Certificate::from_pem(reply.c_id.as_ref())?;
 
-        // Verify that the remote GUID is as specified by the spec.
-        // Note that spec does say that this check needs to be done here. But it seems
-        // that it has just been forgotten, since otherwise only the other
-        // participant would check the other's guid (in begin_handshake_reply)
-        let remote_pdata =
-          discovery::spdp_participant_data::SpdpDiscoveredParticipantData::from_pl_cdr_bytes(
-            &reply.c_pdata,
-            RepresentationIdentifier::CDR_BE,
-          )
-          .map_err(|e| {
-            create_security_error_and_log!(
-              "Failed to deserialize SpdpDiscoveredParticipantData from remote: {e}"
+          // Verify that 2's identity cert checks out against CA.
+          cert2.verify_signed_by_certificate(&local_info.identity_ca)?;
+
+          // Verify that the remote GUID is as specified by the spec.
+          // Note that spec does say that this check needs to be done here. But it seems
+          // that it has just been forgotten, since otherwise only the other
+          // participant would check the other's guid (in begin_handshake_reply)
+          let remote_pdata =
+            discovery::spdp_participant_data::SpdpDiscoveredParticipantData::from_pl_cdr_bytes(
+              &reply.c_pdata,
+              RepresentationIdentifier::CDR_BE,
             )
+            .map_err(|e| {
+              create_security_error_and_log!(
+                "Failed to deserialize SpdpDiscoveredParticipantData from remote: {e}"
+              )
+            })?;
+
+          validate_remote_guid(remote_pdata.participant_guid, &cert2).map_err(|e| {
+            create_security_error_and_log!("Remote GUID does not comply with the spec: {e}")
           })?;
 
-        validate_remote_guid(remote_pdata.participant_guid, &cert2).map_err(|e| {
-          create_security_error_and_log!("Remote GUID does not comply with the spec: {e}")
-        })?;
+          // TODO: verify ocsp_status / status of IdentityCredential
 
-        // TODO: verify ocsp_status / status of IdentityCredential
-
-        if challenge1 != reply.challenge1 {
-          return Err(create_security_error_and_log!(
-            "Challenge 1 mismatch on authentication reply"
-          ));
-        }
-
-        if let Some(received_hash_c1) = reply.hash_c1 {
-          if hash_c1 != received_hash_c1 {
+          if challenge1 != reply.challenge1 {
             return Err(create_security_error_and_log!(
-              "Hash C1 mismatch on authentication reply"
+              "Challenge 1 mismatch on authentication reply"
             ));
-          } else { /* ok */
           }
-        } else {
-          debug!("Cannot compare hash C1 in process_handshake. Reply did not have any.");
-        }
 
-        // Compute hash(C2) from received data.
-        let c2_properties: Vec<BinaryProperty> = vec![
-          BinaryProperty::with_propagate("c.id", reply.c_id.clone()),
-          BinaryProperty::with_propagate("c.perm", reply.c_perm.clone()),
-          BinaryProperty::with_propagate("c.pdata", reply.c_pdata.clone()),
-          BinaryProperty::with_propagate("c.dsign_algo", reply.c_dsign_algo.clone()),
-          BinaryProperty::with_propagate("c.kagree_algo", reply.c_kagree_algo.clone()),
-        ];
-        let c2_hash_recomputed = Sha256::hash(
-          &to_vec::<Vec<BinaryProperty>, BigEndian>(&c2_properties).map_err(|e| SecurityError {
-            msg: format!("Error serializing C2: {}", e),
-          })?,
-        );
-
-        if let Some(received_hash_c2) = reply.hash_c2 {
-          if received_hash_c2.as_ref() == c2_hash_recomputed.as_ref() {
-            // hashes match, safe to proceed
+          if let Some(received_hash_c1) = &reply.hash_c1 {
+            if hash_c1 != *received_hash_c1 {
+              return Err(create_security_error_and_log!(
+                "Hash C1 mismatch on authentication reply"
+              ));
+            } else { /* ok */
+            }
           } else {
+            debug!("Cannot compare hash C1 in process_handshake. Reply did not have any.");
+          }
+
+          // Compute hash(C2) from received data.
+          let c2_properties: Vec<BinaryProperty> = vec![
+            BinaryProperty::with_propagate("c.id", reply.c_id.clone()),
+            BinaryProperty::with_propagate("c.perm", reply.c_perm.clone()),
+            BinaryProperty::with_propagate("c.pdata", reply.c_pdata.clone()),
+            BinaryProperty::with_propagate("c.dsign_algo", reply.c_dsign_algo.clone()),
+            BinaryProperty::with_propagate("c.kagree_algo", reply.c_kagree_algo.clone()),
+          ];
+          let c2_hash_recomputed = Sha256::hash(
+            &to_vec::<Vec<BinaryProperty>, BigEndian>(&c2_properties).map_err(|e| {
+              SecurityError {
+                msg: format!("Error serializing C2: {}", e),
+              }
+            })?,
+          );
+
+          if let Some(received_hash_c2) = &reply.hash_c2 {
+            if received_hash_c2.as_ref() == c2_hash_recomputed.as_ref() {
+              // hashes match, safe to proceed
+            } else {
+              return Err(create_security_error_and_log!(
+                "process_handshake: hash_c2 mismatch"
+              ));
+            }
+          } else {
+            debug!("Cannot compare hashes in process_handshake. Reply did not have any.");
+          }
+
+          // Reconstruct signed data: C2 = Cert2, Perm2, Pdata2, Dsign_algo2, Kagree_algo2
+          // Spec: "Sign(Hash(C2) | Challenge2 | DH2 | Challenge1 | DH1 | Hash(C1)) )",
+          // see Table 50
+          //
+          // Note: We already verified above that hash_c1-recomputed vs. hash_c1-stored
+          // match and hash_c2 recomputed vs received (if any) match.
+
+          let cc2_properties: Vec<BinaryProperty> = vec![
+            BinaryProperty::with_propagate(
+              "hash_c2",
+              Bytes::copy_from_slice(c2_hash_recomputed.as_ref()),
+            ),
+            BinaryProperty::with_propagate(
+              "challenge2",
+              Bytes::copy_from_slice(reply.challenge2.as_ref()),
+            ),
+            BinaryProperty::with_propagate("dh2", Bytes::copy_from_slice(reply.dh2.as_ref())),
+            BinaryProperty::with_propagate(
+              "challenge1",
+              Bytes::copy_from_slice(reply.challenge1.as_ref()),
+            ),
+            BinaryProperty::with_propagate("dh1", Bytes::copy_from_slice(reply.dh1.as_ref())),
+            BinaryProperty::with_propagate("hash_c1", Bytes::copy_from_slice(hash_c1.as_ref())),
+          ];
+
+          let c2_signature_algorithm = parse_signature_algo_name_to_ring(&reply.c_dsign_algo)?;
+
+          // Verify "C2" contents against reply.signature and 2's public key
+          cert2.verify_signed_data_with_algorithm(
+            to_vec::<Vec<BinaryProperty>, BigEndian>(&cc2_properties).map_err(|e| {
+              SecurityError {
+                msg: format!("Error serializing CC2: {}", e),
+              }
+            })?,
+            reply.signature.clone(),
+            c2_signature_algorithm,
+          )?; // verify ok or exit here
+
+          // Verify that the key agreement algo in the reply is as we expect
+          let kagree_algo_in_reply = reply.c_kagree_algo.clone();
+          let expected_kagree_algo = dh1.kagree_algo_name_str();
+          if kagree_algo_in_reply != expected_kagree_algo {
             return Err(create_security_error_and_log!(
-              "process_handshake: hash_c2 mismatch"
+              "Unexpected key agreement algorithm: {kagree_algo_in_reply:?} in \
+               HandshakeReplyMessageToken. Expected {expected_kagree_algo}"
             ));
           }
-        } else {
-          debug!("Cannot compare hashes in process_handshake. Reply did not have any.");
-        }
-
-        // Reconstruct signed data: C2 = Cert2, Perm2, Pdata2, Dsign_algo2, Kagree_algo2
-        // Spec: "Sign(Hash(C2) | Challenge2 | DH2 | Challenge1 | DH1 | Hash(C1)) )",
-        // see Table 50
-        //
-        // Note: We already verified above that hash_c1-recomputed vs. hash_c1-stored
-        // match and hash_c2 recomputed vs received (if any) match.
-
-        let cc2_properties: Vec<BinaryProperty> = vec![
-          BinaryProperty::with_propagate(
-            "hash_c2",
-            Bytes::copy_from_slice(c2_hash_recomputed.as_ref()),
-          ),
-          BinaryProperty::with_propagate(
-            "challenge2",
-            Bytes::copy_from_slice(reply.challenge2.as_ref()),
-          ),
-          BinaryProperty::with_propagate("dh2", Bytes::copy_from_slice(reply.dh2.as_ref())),
-          BinaryProperty::with_propagate(
-            "challenge1",
-            Bytes::copy_from_slice(reply.challenge1.as_ref()),
-          ),
-          BinaryProperty::with_propagate("dh1", Bytes::copy_from_slice(reply.dh1.as_ref())),
-          BinaryProperty::with_propagate("hash_c1", Bytes::copy_from_slice(hash_c1.as_ref())),
-        ];
-
-        let c2_signature_algorithm = parse_signature_algo_name_to_ring(&reply.c_dsign_algo)?;
-
-        // Verify "C2" contents against reply.signature and 2's public key
-        cert2.verify_signed_data_with_algorithm(
-          to_vec::<Vec<BinaryProperty>, BigEndian>(&cc2_properties).map_err(|e| SecurityError {
-            msg: format!("Error serializing CC2: {}", e),
-          })?,
-          reply.signature,
-          c2_signature_algorithm,
-        )?; // verify ok or exit here
-
-        // Verify that the key agreement algo in the reply is as we expect
-        let kagree_algo_in_reply = reply.c_kagree_algo;
-        let expected_kagree_algo = dh1.kagree_algo_name_str();
-        if kagree_algo_in_reply != expected_kagree_algo {
-          return Err(create_security_error_and_log!(
-            "Unexpected key agreement algorithm: {kagree_algo_in_reply:?} in \
-             HandshakeReplyMessageToken. Expected {expected_kagree_algo}"
-          ));
-        }
+          Ok((reply, cert2, c2_hash_recomputed))
+        })();
+        let (reply, cert2, c2_hash_recomputed) = match validated {
+          Ok(validated) => validated,
+          Err(e) => {
+            self
+              .get_remote_participant_info_mutable(&remote_identity_handle)?
+              .handshake
+              .state = BuiltinHandshakeState::PendingReplyMessage {
+              dh1,
+              challenge1,
+              hash_c1,
+            };
+            return Err(e);
+          }
+        };
 
         let dh1_public_key = dh1.public_key_bytes()?;
 
@@ -918,94 +943,122 @@ impl Authentication for AuthenticationBuiltin {
         // We are the responder, and expect the final message.
         // Result is that we do not produce a MassageToken, since this was the final
         // message, but we compute the handshake results (shared secret)
-        let handshake_token = BuiltinHandshakeMessageToken::try_from(handshake_message_in)?;
 
-        let final_token = handshake_token.extract_final()?;
+        // As above: validate first, and put the state back if the message is
+        // rejected.
+        let validated = (|| {
+          let handshake_token = BuiltinHandshakeMessageToken::try_from(handshake_message_in)?;
 
-        // This is a sanity check
-        if let Some(received_hash_c1) = final_token.hash_c1 {
-          if hash_c1 != received_hash_c1 {
+          let final_token = handshake_token.extract_final()?;
+
+          // This is a sanity check
+          if let Some(received_hash_c1) = final_token.hash_c1 {
+            if hash_c1 != received_hash_c1 {
+              return Err(create_security_error_and_log!(
+                "Hash C1 mismatch on authentication final receive"
+              ));
+            }
+          }
+
+          // This is a sanity check 2
+          if let Some(received_hash_c2) = final_token.hash_c2 {
+            if hash_c2 != received_hash_c2 {
+              return Err(create_security_error_and_log!(
+                "Hash C2 mismatch on authentication final receive"
+              ));
+            }
+          }
+
+          // sanity check
+          if dh1_public != final_token.dh1 {
             return Err(create_security_error_and_log!(
-              "Hash C1 mismatch on authentication final receive"
+              "Diffie-Hellman parameter DH1 mismatch on authentication final receive"
             ));
           }
-        }
 
-        // This is a sanity check 2
-        if let Some(received_hash_c2) = final_token.hash_c2 {
-          if hash_c2 != received_hash_c2 {
+          // sanity check
+          let dh2_public_key = dh2.public_key_bytes()?;
+          if dh2_public_key.as_ref() != final_token.dh2.as_ref() {
             return Err(create_security_error_and_log!(
-              "Hash C2 mismatch on authentication final receive"
+              "Diffie-Hellman parameter DH2 mismatch on authentication final receive"
             ));
           }
-        }
 
-        // sanity check
-        if dh1_public != final_token.dh1 {
-          return Err(create_security_error_and_log!(
-            "Diffie-Hellman parameter DH1 mismatch on authentication final receive"
-          ));
-        }
+          // "The operation shall check that the challenge1 and challenge2 match the ones
+          // that were sent on the HandshakeReplyMessageToken."
+          if challenge1 != final_token.challenge1 {
+            return Err(create_security_error_and_log!(
+              "process_handshake: Final token challenge1 mismatch"
+            ));
+          }
+          if challenge2 != final_token.challenge2 {
+            //
+            return Err(create_security_error_and_log!(
+              "process_handshake: Final token challenge2 mismatch"
+            ));
+          }
 
-        // sanity check
-        let dh2_public_key = dh2.public_key_bytes()?;
-        if dh2_public_key.as_ref() != final_token.dh2.as_ref() {
-          return Err(create_security_error_and_log!(
-            "Diffie-Hellman parameter DH2 mismatch on authentication final receive"
-          ));
-        }
+          // "The operation shall validate the digital signature in the “signature”
+          // property, according to the expected contents and algorithm described
+          // in 9.3.2.5.3." ....
+          // signature for final message:
+          // Sign( Hash(C1) | Challenge1 | DH1 | Challenge2 | DH2 | Hash(C2) )
+          // see Table 51
 
-        // "The operation shall check that the challenge1 and challenge2 match the ones
-        // that were sent on the HandshakeReplyMessageToken."
-        if challenge1 != final_token.challenge1 {
-          return Err(create_security_error_and_log!(
-            "process_handshake: Final token challenge1 mismatch"
-          ));
-        }
-        if challenge2 != final_token.challenge2 {
-          //
-          return Err(create_security_error_and_log!(
-            "process_handshake: Final token challenge2 mismatch"
-          ));
-        }
+          let cc_final_properties: Vec<BinaryProperty> = vec![
+            BinaryProperty::with_propagate("hash_c1", Bytes::copy_from_slice(hash_c1.as_ref())),
+            BinaryProperty::with_propagate(
+              "challenge1",
+              Bytes::copy_from_slice(challenge1.as_ref()),
+            ),
+            BinaryProperty::with_propagate("dh1", Bytes::copy_from_slice(dh1_public.as_ref())),
+            BinaryProperty::with_propagate(
+              "challenge2",
+              Bytes::copy_from_slice(challenge2.as_ref()),
+            ),
+            BinaryProperty::with_propagate("dh2", Bytes::copy_from_slice(dh2_public_key.as_ref())),
+            BinaryProperty::with_propagate("hash_c2", Bytes::copy_from_slice(hash_c2.as_ref())),
+          ];
 
-        // "The operation shall validate the digital signature in the “signature”
-        // property, according to the expected contents and algorithm described
-        // in 9.3.2.5.3." ....
-        // signature for final message:
-        // Sign( Hash(C1) | Challenge1 | DH1 | Challenge2 | DH2 | Hash(C2) )
-        // see Table 51
+          // Now we use the remote certificate, which we verified in the previous (request
+          // -> reply) step against CA.
+          let remote_signature_algo_name =
+            remote_id_certificate.signature_algorithm_identifier()?;
+          let remote_signature_algorithm =
+            parse_signature_algo_name_to_ring(&remote_signature_algo_name)?;
 
-        let cc_final_properties: Vec<BinaryProperty> = vec![
-          BinaryProperty::with_propagate("hash_c1", Bytes::copy_from_slice(hash_c1.as_ref())),
-          BinaryProperty::with_propagate("challenge1", Bytes::copy_from_slice(challenge1.as_ref())),
-          BinaryProperty::with_propagate("dh1", Bytes::copy_from_slice(dh1_public.as_ref())),
-          BinaryProperty::with_propagate("challenge2", Bytes::copy_from_slice(challenge2.as_ref())),
-          BinaryProperty::with_propagate("dh2", Bytes::copy_from_slice(dh2_public_key.as_ref())),
-          BinaryProperty::with_propagate("hash_c2", Bytes::copy_from_slice(hash_c2.as_ref())),
-        ];
-
-        // Now we use the remote certificate, which we verified in the previous (request
-        // -> reply) step against CA.
-        let remote_signature_algo_name = remote_id_certificate.signature_algorithm_identifier()?;
-        let remote_signature_algorithm =
-          parse_signature_algo_name_to_ring(&remote_signature_algo_name)?;
-
-        remote_id_certificate
-          .verify_signed_data_with_algorithm(
-            to_vec::<Vec<BinaryProperty>, BigEndian>(&cc_final_properties).map_err(|e| {
-              SecurityError {
-                msg: format!("Error serializing CC_final: {}", e),
-              }
-            })?,
-            final_token.signature,
-            remote_signature_algorithm,
-          )
-          .map_err(|e| {
-            create_security_error_and_log!(
-              "Signature verification failed in process_handshake: {e:?}"
+          remote_id_certificate
+            .verify_signed_data_with_algorithm(
+              to_vec::<Vec<BinaryProperty>, BigEndian>(&cc_final_properties).map_err(|e| {
+                SecurityError {
+                  msg: format!("Error serializing CC_final: {}", e),
+                }
+              })?,
+              final_token.signature,
+              remote_signature_algorithm,
             )
-          })?;
+            .map_err(|e| {
+              create_security_error_and_log!(
+                "Signature verification failed in process_handshake: {e:?}"
+              )
+            })?;
+          Ok(())
+        })();
+        if let Err(e) = validated {
+          self
+            .get_remote_participant_info_mutable(&remote_identity_handle)?
+            .handshake
+            .state = BuiltinHandshakeState::PendingFinalMessage {
+            hash_c1,
+            hash_c2,
+            dh1_public,
+            dh2,
+            challenge1,
+            challenge2,
+            remote_id_certificate,
+          };
+          return Err(e);
+        }
 
         // Compute the shared secret
         let shared_secret = dh2.compute_shared_secret(dh1_public)?;
@@ -1020,10 +1073,14 @@ impl Authentication for AuthenticationBuiltin {
 
         Ok((ValidationOutcome::Ok, None))
       }
-      other_state => Err(create_security_error_and_log!(
-        "Unexpected handshake state: {:?}",
-        other_state
-      )),
+      other_state => {
+        let e = create_security_error_and_log!("Unexpected handshake state: {:?}", other_state);
+        self
+          .get_remote_participant_info_mutable(&remote_identity_handle)?
+          .handshake
+          .state = other_state;
+        Err(e)
+      }
     }
   }
 
